@@ -2,6 +2,7 @@
 D1 decorator contract, D2 two-sided tie tolerance of the weighted median, D3 pad / unpad pairing of the smoothers,
 D4 translation / scale typing of the estimator bodies, D5 constant data (see estyping.py)."""
 import ast
+import itertools
 from fractions import Fraction as Fr
 
 from ..core import AnalysisError, own_nodes, norm, parents, stmt_of, dominates
@@ -238,6 +239,92 @@ def d45(chk, prog):
     estyping.check(chk, prog, LOCATION, SCALE)
 
 
+def d3c(chk, prog):
+    """the convolution kernels on literal arrays with exact rational arithmetic: a constant signal comes back constant, whatever the
+    (positive) weights and the number of passes; one value per input value"""
+    from .. import estyping
+    from ..abstools import Interp, W, T, Table, Undecided
+    from ..absval import Raised
+    from fractions import Fraction as Fr
+    Arr = estyping.Arr
+
+    def conv_same(it, a, v, mode="full"):
+        from ..absint import binop
+        a, v = (a.v if isinstance(a, Arr) else list(a)), (v.v if isinstance(v, Arr) else list(v))
+        full = []
+        for k in range(len(a) + len(v) - 1):
+            acc = 0
+            for i in range(len(a)):
+                j = k - i
+                if 0 <= j < len(v):
+                    acc = binop(ast.Add(), acc, binop(ast.Mult(), a[i], v[j]))
+            full.append(acc)
+        if mode == "full":
+            return Arr(full)
+        if mode != "same":
+            raise Undecided(f"np.convolve mode {mode!r}")
+        n = max(len(a), len(v))
+        start = (len(full) - n) // 2
+        return Arr(full[start:start + n])
+
+    def mk_model():
+        m = estyping.const_model()
+        m.ext["np.convolve"] = conv_same
+        return m
+    fw = prog.fn("cnvlib.smoothing.convolve_weighted")
+    tb = Table(chk, "constant-signal", "convolve_weighted / convolve_unweighted on literal arrays (exact rationals): constant signal -> the same constant, one value per input", fw.loc(), "cnvlib.smoothing::convolution kernels")
+    k = Fr(3, 4)
+    for weights, n_iter in itertools.product(([1, 1, 1, 1, 1, 1, 1], [1, 2, 3, 4, 5, 6, 7], [5, 1, 1, 9, 1, 2, 8]), (1, 2, 3)):
+        W.reset()
+        it = Interp(prog, mk_model())
+        n = len(weights)
+        out = tb.guard(lambda: it.run(fw.qn, [Arr([Fr(1), Fr(2), Fr(1)]), Arr([k] * n), Arr([Fr(x) for x in weights]), n_iter]), f"weighted weights={weights} passes={n_iter}")
+        if out is None:
+            continue
+        y = out[0] if isinstance(out, tuple) else out
+        vals = [T(x).cval() if not isinstance(x, Fr) else x for x in y.v] if isinstance(y, Arr) else None
+        tb.cell(vals is not None and len(vals) == n and all(v == k for v in vals), dict(kernel="convolve_weighted", weights=weights, passes=n_iter, got=[str(v) for v in vals] if vals else repr(out)[:60], want=str(k)))
+    fu = prog.fn("cnvlib.smoothing.convolve_unweighted")
+    for n_iter in (1, 2):
+        W.reset()
+        it = Interp(prog, mk_model())
+        wing, n = 2, 6
+        out = tb.guard(lambda: it.run(fu.qn, [Arr([Fr(1), Fr(2), Fr(3), Fr(2), Fr(1)]), Arr([k] * (n + 2 * wing)), wing, n_iter]), f"unweighted passes={n_iter}")
+        if out is None:
+            continue
+        vals = [T(x).cval() if not isinstance(x, Fr) else x for x in out.v] if isinstance(out, Arr) else None
+        # (values at the array ends see the zero padding of mode='same'; the interior of the padded signal must be exact)
+        tb.cell(vals is not None and len(vals) == n and all(v == k for v in vals[(n_iter - 1) * 2:len(vals) - (n_iter - 1) * 2]),
+                dict(kernel="convolve_unweighted", passes=n_iter, got=[str(v) for v in vals] if vals else repr(out)[:60], want=str(k)))
+    tb.done("a smoothing kernel does not reproduce a constant signal (or changes the number of values)")
+
+
+def d5b(chk, prog):
+    """the documented exception of the biweight midvariance, evaluated exactly: on data symmetric about the location it is 1.4826 * MAD"""
+    from .. import estyping
+    from ..abstools import Interp, W, T, Table, same
+    from ..absval import Closure
+    from fractions import Fraction as Fr
+    fi = prog.fn(f"{DESC}.biweight_midvariance")
+    tb = Table(chk, "constant-data", "biweight_midvariance on exactly symmetric data (location given): 1.4826 * MAD", fi.loc(), fi.qn + "::symmetric data")
+    for data, loc in (([-2, -1, 0, 1, 2], 0), ([3, 5, 7], 5), ([10, 10, 14, 18, 18], 14), ([-1, 1], 0)):
+        W.reset()
+        it = Interp(prog, estyping.const_model())
+        out = tb.guard(lambda: ("v", it.call(Closure(fi.node, {}, fi.mod, fi.qn), [estyping.Arr([Fr(x) for x in data])], {"initial": Fr(loc)})), f"data={data}")
+        if out is None:
+            continue
+        dev = sorted(abs(Fr(x) - loc) for x in data)
+        mad = dev[len(dev) // 2] if len(dev) % 2 else (dev[len(dev) // 2 - 1] + dev[len(dev) // 2]) / 2
+        want = mad * Fr(14826, 10000)
+        got = out[1]
+        try:
+            ok = abs(T(got).cval() - want) < Fr(1, 10 ** 9)
+        except Exception:
+            ok = False
+        tb.cell(ok, dict(data=data, location=loc, got=repr(got), want=str(want)))
+    tb.done("on exactly symmetric data the biweight midvariance is not the documented 1.4826 * MAD fallback")
+
+
 def run(chk):
     prog = chk.prog
     chk.trust("Python grammar via ast", "numpy reductions: median / percentile / mean / average of translated data translate, differences do not (estyping.py table)",
@@ -246,7 +333,9 @@ def run(chk):
     d2(chk, prog)
     d3(chk, prog)
     d3b(chk, prog)
+    d3c(chk, prog)
     d45(chk, prog)
+    d5b(chk, prog)
 
 
 _D = "cnvlib/descriptives.py"
